@@ -662,9 +662,21 @@ func (m *Model) Pull(name string, max int, now time.Time, resp []*pubsubpb.Recei
 			// so prefer one that may be delivered now, then the earliest)
 			for _, c := range s.Dels {
 				if c.AckID == "" && c.Msg.ID == rm.Message.GetMessageId() && !got[c] {
-					better := d == nil ||
-						(cl[d].c == clMustNot && cl[c].c != clMustNot) ||
-						((cl[d].c == clMustNot) == (cl[c].c == clMustNot) && c.Pub.Before(d.Pub))
+					// rank: forbidden < allowed < owed. Binding the response to a delivery
+					// that is merely ALLOWED while an OWED delivery of the same message sits
+					// on the subscription (an expired original that a seek may have
+					// revived, next to a fresh dead-letter re-arrival through a topic
+					// loop) would leave the owed one unbound and report it as missing.
+					rank := func(x *Del) int {
+						switch cl[x].c {
+						case clMustNot:
+							return 0
+						case clMust:
+							return 2
+						}
+						return 1
+					}
+					better := d == nil || rank(c) > rank(d) || (rank(c) == rank(d) && c.Pub.Before(d.Pub))
 					if better {
 						d = c
 					}
